@@ -5,6 +5,7 @@ import json
 import os
 
 rows = []
+NOTES = json.load(open('/verif/seeded/NOTES.json')) if os.path.exists('/verif/seeded/NOTES.json') else {}
 for f in sorted(glob.glob('/verif/seeded/*/meta.json')):
     m = json.load(open(f))
     sid = m.get('seed_id') or os.path.basename(os.path.dirname(f))
@@ -12,7 +13,7 @@ for f in sorted(glob.glob('/verif/seeded/*/meta.json')):
     files = ', '.join(x.replace('src/', '') for x in m.get('files', []))
     caught = m.get('caught_by', [])
     tgt = m.get('property', sid[:3])
-    note = m.get('note', '')
+    note = NOTES.get(sid, m.get('note', ''))
     how = []
     for c in caught:
         r = m['checks'][c]
